@@ -247,6 +247,142 @@ fn check_encoding(enc: &'static encoding_rs::Encoding, input: &[u8], cuts: &[usi
     }
 }
 
+// -------- the other entry points of TendrilSink: one, from_iter, read_from, from_file ----------
+
+/// A reader that hands out the data in pieces of the scheduled sizes and fails with
+/// `Interrupted` now and then (which `read_from` has to retry).
+struct Trickle<'a> {
+    data: &'a [u8],
+    pos: usize,
+    sizes: Vec<usize>,
+    k: usize,
+    interrupts: u32,
+}
+
+impl std::io::Read for Trickle<'_> {
+    fn read(&mut self, buf: &mut [u8]) -> std::io::Result<usize> {
+        let want = self.sizes[self.k % self.sizes.len()];
+        self.k += 1;
+        if want == 0 {
+            self.interrupts += 1;
+            return Err(std::io::Error::new(std::io::ErrorKind::Interrupted, "again"));
+        }
+        let n = want.min(buf.len()).min(self.data.len() - self.pos);
+        buf[..n].copy_from_slice(&self.data[self.pos..self.pos + n]);
+        self.pos += n;
+        Ok(n)
+    }
+}
+
+fn read_sizes(rng: &mut Rng) -> Vec<usize> {
+    match rng.below(6) {
+        0 => vec![usize::MAX],
+        1 => vec![1],
+        2 => vec![4095, 1, 4096, 2],
+        3 => vec![4096, 0, 3],
+        _ => (0..rng.range(1, 6)).map(|_| *rng.pick(&[0usize, 1, 2, 3, 5, 100, 1000, 4095, 4096, 4097, 9000])).chain([7usize]).collect(),
+    }
+}
+
+/// text with multi-byte characters and ill-formed pieces, long enough to straddle read_from's
+/// 4096-byte blocks
+fn long_bytes(rng: &mut Rng) -> Vec<u8> {
+    let n = match rng.below(4) {
+        0 => rng.below(200),
+        1 => 4096 - 3 + rng.below(7),
+        2 => 8192 - 3 + rng.below(7),
+        _ => rng.below(13000),
+    };
+    let mut v = Vec::with_capacity(n + 8);
+    while v.len() < n {
+        match rng.below(8) {
+            0 => v.extend("日本語".as_bytes()),
+            1 => v.extend("\u{10ffff}".as_bytes()),
+            2 => v.extend("é".as_bytes()),
+            3 => v.push(*rng.pick(&REPS)),
+            4 => v.extend(b"<b>t</b>\n"),
+            _ => v.extend(std::iter::repeat(b'a' + rng.below(26) as u8).take(rng.range(1, 40))),
+        }
+    }
+    v
+}
+
+fn check_entry_points(input: &[u8], rng: &mut Rng, st: &mut Stats) {
+    let want = String::from_utf8_lossy(input).into_owned();
+    let exp = expected_replacements(input, &want);
+    let rep = |how: &str, sizes: &[usize]| json!({"kind": "entry", "how": how, "bytes": hex(input), "read_sizes": sizes.iter().map(|x| (*x).min(1 << 20)).collect::<Vec<_>>()});
+    let judge = |how: &str, sizes: &[usize], r: Result<Rec, String>, st: &mut Stats| match r {
+        Err(m) => st.violation(&format!("entry:{how}:panic-or-error"), &format!("{how} over {} bytes (read sizes {:?}): {m}", input.len(), &sizes[..sizes.len().min(8)]), rep(how, sizes)),
+        Ok(rec) => {
+            if rec.out != want {
+                let at = rec.out.bytes().zip(want.bytes()).position(|(a, b)| a != b).unwrap_or(rec.out.len().min(want.len()));
+                st.violation(&format!("entry:{how}:text"), &format!("{how} over {} bytes [{}...] (read sizes {:?}): delivered {} bytes of text, the lossy decode of the whole input has {}; first difference at byte {at}", input.len(), hex(&input[..input.len().min(16)]), &sizes[..sizes.len().min(8)], rec.out.len(), want.len()), rep(how, sizes));
+            } else if rec.errors != exp {
+                st.violation(&format!("entry:{how}:error-count"), &format!("{how} over {} bytes: {} error reports for {exp} replacements", input.len(), rec.errors), rep(how, sizes));
+            }
+        },
+    };
+    // one()
+    let r = catch(|| Utf8LossyDecoder::new(Rec::default()).one(Tendril::<Bytes>::from_slice(input)));
+    judge("one", &[], r, st);
+    // from_iter()
+    let cuts = random_cuts_b(rng, input.len().min(64));
+    let chunks = split_bytes(input, &cuts);
+    let r = catch(|| Utf8LossyDecoder::new(Rec::default()).from_iter(chunks.iter().map(|c| Tendril::<Bytes>::from_slice(c))));
+    judge("from_iter", &cuts, r, st);
+    // read_from() with a trickling, interrupting reader
+    let sizes = read_sizes(rng);
+    let r = catch(|| {
+        let mut t = Trickle { data: input, pos: 0, sizes: sizes.clone(), k: 0, interrupts: 0 };
+        let r = Utf8LossyDecoder::new(Rec::default()).read_from(&mut t);
+        (r, t.interrupts)
+    });
+    match r {
+        Ok((Ok(rec), intr)) => {
+            if intr > 0 {
+                st.count("read_from_runs_with_interrupted_reads");
+            }
+            if rec.pieces > 1 {
+                st.count("read_from_runs_with_several_reads");
+            }
+            judge("read_from", &sizes, Ok(rec), st)
+        },
+        Ok((Err(e), _)) => judge("read_from", &sizes, Err(format!("I/O error {e}")), st),
+        Err(m) => judge("read_from", &sizes, Err(m), st),
+    }
+    st.count("entry_point_runs");
+    // from_file() (a real file, so reads are as long as the buffer)
+    if !cfg!(miri) && rng.chance(1, 8) {
+        let path = std::env::temp_dir().join(format!("vharness-c10-{}-{:x}", std::process::id(), rng.next_u64()));
+        if std::fs::write(&path, input).is_ok() {
+            let r = catch(|| Utf8LossyDecoder::new(Rec::default()).from_file(&path));
+            let _ = std::fs::remove_file(&path);
+            match r {
+                Ok(Ok(rec)) => judge("from_file", &[], Ok(rec), st),
+                Ok(Err(e)) => st.inconclusive(&format!("from_file: I/O error {e}")),
+                Err(m) => judge("from_file", &[], Err(m), st),
+            }
+            st.count("from_file_runs");
+        }
+    }
+    // the parser behind from_utf8().read_from()
+    if rng.chance(1, 6) {
+        let sizes = read_sizes(rng);
+        let r = catch(|| {
+            let mut t = Trickle { data: input, pos: 0, sizes: sizes.clone(), k: 0, interrupts: 0 };
+            let a = html5ever::parse_document(RcDom::default(), Default::default()).from_utf8().read_from(&mut t).map(|d| dump_html(&from_rcdom(&d.document)));
+            let b = dump_html(&from_rcdom(&html5ever::parse_document(RcDom::default(), Default::default()).one(want.as_str()).document));
+            (a, b)
+        });
+        st.count("parser_read_from_runs");
+        if let Ok((Ok(a), b)) = r {
+            if a != b {
+                st.violation("entry:parser-read_from:tree", &format!("parse_document().from_utf8().read_from() over {} bytes (read sizes {:?}) differs from parsing the lossy string: {}", input.len(), &sizes[..sizes.len().min(8)], dump_diff(&b, &a)), rep("parser-read_from", &sizes));
+            }
+        }
+    }
+}
+
 // -------- trees through from_utf8() ----------------------------------------------------------
 
 fn check_tree(input: &[u8], cuts: &[usize], st: &mut Stats) {
@@ -295,6 +431,13 @@ pub fn run(args: &Args) -> (Meta, Stats) {
                 }
             },
             "tree" => check_tree(&bytes, &cuts, &mut st),
+            "entry" => {
+                // the read schedule is redrawn; all entry points are exercised over the recorded bytes
+                let mut rng = Rng::new(1);
+                for _ in 0..50 {
+                    check_entry_points(&bytes, &mut rng, &mut st);
+                }
+            },
             _ => {
                 check_utf8(&bytes, &cuts, &mut st);
             },
@@ -322,6 +465,12 @@ pub fn run(args: &Args) -> (Meta, Stats) {
                 break;
             }
             k += 1;
+            if k % 16 == 5 {
+                let b = if sanit { random_bytes(&mut rng, 64) } else { long_bytes(&mut rng) };
+                st.distinct.insert(hash_bytes(&b));
+                check_entry_points(&b, &mut rng, st);
+                continue;
+            }
             match k % 4 {
                 0 => {
                     let b = random_bytes(&mut rng, 64);
@@ -353,12 +502,12 @@ pub fn run(args: &Args) -> (Meta, Stats) {
     });
     let mut m = super::meta(
         args,
-        &format!("(1) exhaustive: every byte string of length 0..={maxlen} over 25 UTF-8 byte-class representatives (every lead class, every continuation sub-range boundary, invalid leads) under EVERY chunking (2^(n-1) schedules) through Utf8LossyDecoder: concatenated output == String::from_utf8_lossy, error reports == replacements inserted (counted independently). (2) random byte strings up to 64 bytes with truncated sequences x random chunkings incl. 1-byte and empty chunks. (3) LossyDecoder over all 40 encoding_rs encodings: chunked output == one-shot Encoding::decode of the concatenation (BOM-sniffing decoder on both sides), inputs biased to lead/trail ranges, ISO-2022-JP escapes, UTF-16 surrogate halves, BOMs, truncation at EOF, outputs > 8192 bytes. (4) parse_document(..).from_utf8() over chunks (HTML and XML) gives the tree of parsing the lossy string. Distinct = distinct byte strings."),
+        &format!("(1) exhaustive: every byte string of length 0..={maxlen} over 25 UTF-8 byte-class representatives (every lead class, every continuation sub-range boundary, invalid leads) under EVERY chunking (2^(n-1) schedules) through Utf8LossyDecoder: concatenated output == String::from_utf8_lossy, error reports == replacements inserted (counted independently). (2) random byte strings up to 64 bytes with truncated sequences x random chunkings incl. 1-byte and empty chunks. (3) LossyDecoder over all 40 encoding_rs encodings: chunked output == one-shot Encoding::decode of the concatenation (BOM-sniffing decoder on both sides), inputs biased to lead/trail ranges, ISO-2022-JP escapes, UTF-16 surrogate halves, BOMs, truncation at EOF, outputs > 8192 bytes. (4) parse_document(..).from_utf8() over chunks (HTML and XML) gives the tree of parsing the lossy string. (5) the other TendrilSink entry points over inputs of up to 13000 bytes (sizes around the 4096-byte read block): one(), from_iter(), read_from() with a reader that returns short reads of scheduled sizes (1, 2, 3, 4095, 4096, ...) and Interrupted errors, from_file() on a real temporary file, and the HTML parser behind from_utf8().read_from(). Distinct = distinct byte strings."),
         &["String::from_utf8_lossy and encoding_rs's one-shot decode are the trusted references", "the class quotient is exhaustive; general byte strings are sampled"],
     );
     m.exhaustive = true;
     if !sanit {
-        m.require = vec![("exhaustive_strings".into(), 400_000), ("encoding_runs".into(), 20_000), ("encodings_exercised".into(), 40), ("tree_runs".into(), 2000), ("enc_runs_with_output_over_8192_bytes".into(), 20)];
+        m.require = vec![("exhaustive_strings".into(), 400_000), ("encoding_runs".into(), 20_000), ("encodings_exercised".into(), 40), ("tree_runs".into(), 2000), ("enc_runs_with_output_over_8192_bytes".into(), 20), ("entry_point_runs".into(), 500), ("read_from_runs_with_several_reads".into(), 100), ("read_from_runs_with_interrupted_reads".into(), 50)];
     }
     (m, st)
 }
